@@ -1,3 +1,353 @@
-//! Driver for zero-sized elements at extreme capacities (C19). Filled in below.
+//! Driver for zero-sized elements at extreme capacities (C19). Elements have no identity: the trace
+//! carries lengths, flags, result kinds and the created / destroyed counters. Records, judges nothing.
+
+use crate::drv::{call, gbound, gi, gs};
+use crate::ev::{dec, enc, Ev, Post, Ret};
+use crate::tracked::{self, zst_counts, Zst};
+use circular_buffer::{CircularBuffer, Drain, Iter};
 use serde_json::Value;
-pub fn run(_sc: &Value, _scn: &str, _steps: &[Value]) -> Option<String> { None }
+use std::ops::Bound;
+use std::panic::{catch_unwind, AssertUnwindSafe};
+
+type Buf<const N: usize> = CircularBuffer<N, Zst>;
+
+enum ZView<const N: usize> {
+    It(Iter<'static, Zst>),
+    Dr(Drain<'static, N, Zst>),
+}
+
+struct ZDrv<const N: usize> {
+    buf: *mut Buf<N>,
+    view: Option<ZView<N>>,
+    held: Vec<Zst>,
+    out: String,
+    scn: String,
+    dig: u64,
+}
+
+fn to_bound(b: (&'static str, i64)) -> Bound<usize> {
+    match b.0 {
+        "i" => Bound::Included(dec(b.1)),
+        "e" => Bound::Excluded(dec(b.1)),
+        _ => Bound::Unbounded,
+    }
+}
+
+impl<const N: usize> ZDrv<N> {
+    fn obs(&self) -> Post {
+        if self.buf.is_null() || matches!(self.view, Some(ZView::Dr(_))) {
+            return Post::default();
+        }
+        let r = catch_unwind(AssertUnwindSafe(|| {
+            let b = unsafe { &*self.buf };
+            let (a, c) = b.as_slices();
+            Post {
+                obs: true,
+                len: enc(b.len()),
+                empty: b.is_empty(),
+                full: b.is_full(),
+                split: enc(a.len()),
+                cap: enc(b.capacity()),
+                // for elements without identity `seq` only says how many elements both slices show
+                seq: vec![enc(a.len() + c.len())],
+                ..Default::default()
+            }
+        }));
+        r.unwrap_or(Post { obs: true, len: -2, ..Default::default() })
+    }
+
+    fn emit(&mut self, mut ev: Ev) {
+        ev.scn = self.scn.clone();
+        ev.feat = crate::FEAT;
+        ev.ty = "z";
+        ev.cap = enc(N);
+        let (c, d) = zst_counts();
+        ev.ret.ids2 = vec![c as i64, d as i64, self.held.len() as i64];
+        ev.digest(&mut self.dig);
+        ev.write(&mut self.out);
+    }
+
+    fn opt(&mut self, r: Option<Zst>) -> Ret {
+        match r {
+            Some(x) => {
+                self.held.push(x);
+                Ret { k: "some", ..Default::default() }
+            }
+            None => Ret::none(),
+        }
+    }
+
+    fn step(&mut self, st: &Value) {
+        let op = gs(st, "op").to_string();
+        let mut ev = Ev::new("call", &op);
+        ev.h = 0;
+        let i = gi(st, "i", 0);
+        let j = gi(st, "j", 0);
+        ev.i = i;
+        ev.j = j;
+        if op == "new" {
+            let r = call(&mut ev, None, || Box::new(Buf::<N>::new()));
+            if let Some(b) = r {
+                self.buf = Box::into_raw(b);
+            }
+            ev.allocs = -1;
+            ev.post = self.obs();
+            return self.emit(ev);
+        }
+        if op == "caller_drop" {
+            ev.h = -1;
+            let n = self.held.len() as i64;
+            self.held.clear();
+            ev.i = n;
+            return self.emit(ev);
+        }
+        if self.buf.is_null() {
+            return;
+        }
+        let b: &mut Buf<N> = unsafe { &mut *self.buf };
+        let viewing = self.view.is_some();
+        match op.as_str() {
+            "push_back" | "push_front" if !viewing => {
+                let x = Zst::new();
+                let r = call(&mut ev, None, || if op == "push_back" { b.push_back(x) } else { b.push_front(x) });
+                if let Some(r) = r {
+                    ev.ret = self.opt(r);
+                }
+            }
+            "try_push_back" | "try_push_front" if !viewing => {
+                let x = Zst::new();
+                let r = call(&mut ev, None, || if op == "try_push_back" { b.try_push_back(x) } else { b.try_push_front(x) });
+                if let Some(r) = r {
+                    ev.ret = match r {
+                        Ok(()) => Ret::ok(),
+                        Err(x) => {
+                            self.held.push(x);
+                            Ret { k: "err", ..Default::default() }
+                        }
+                    };
+                }
+            }
+            "pop_back" | "pop_front" if !viewing => {
+                let r = call(&mut ev, None, || if op == "pop_back" { b.pop_back() } else { b.pop_front() });
+                if let Some(r) = r {
+                    ev.ret = self.opt(r);
+                }
+            }
+            "remove" | "swap_remove_back" | "swap_remove_front" if !viewing => {
+                let ix = dec(i);
+                let r = call(&mut ev, None, || match op.as_str() {
+                    "remove" => b.remove(ix),
+                    "swap_remove_back" => b.swap_remove_back(ix),
+                    _ => b.swap_remove_front(ix),
+                });
+                if let Some(r) = r {
+                    ev.ret = self.opt(r);
+                }
+            }
+            "swap" if !viewing => {
+                let (ix, jx) = (dec(i), dec(j));
+                if call(&mut ev, None, || b.swap(ix, jx)).is_some() {
+                    ev.ret = Ret::unit();
+                }
+            }
+            "truncate_back" | "truncate_front" | "clear" if !viewing => {
+                let n = dec(i);
+                if call(&mut ev, None, || match op.as_str() {
+                    "truncate_back" => b.truncate_back(n),
+                    "truncate_front" => b.truncate_front(n),
+                    _ => b.clear(),
+                })
+                .is_some()
+                {
+                    ev.ret = Ret::unit();
+                }
+            }
+            "extend_from_slice" | "extend" if !viewing => {
+                let k = dec(i).min(64);
+                let src: Vec<Zst> = (0..k).map(|_| Zst::new()).collect();
+                ev.ids = vec![0; k];
+                let r = if op == "extend" {
+                    call(&mut ev, None, || b.extend(src))
+                } else {
+                    let r = call(&mut ev, None, || b.extend_from_slice(&src));
+                    self.held.extend(src);
+                    r
+                };
+                if r.is_some() {
+                    ev.ret = Ret::unit();
+                }
+            }
+            "make_contiguous" if !viewing => {
+                if let Some(n) = call(&mut ev, None, || b.make_contiguous().len()) {
+                    ev.ret = Ret::num(enc(n));
+                }
+            }
+            "get" | "nth_front" | "nth_back" | "get_mut" | "nth_front_mut" | "nth_back_mut" | "index" | "index_mut" if !viewing => {
+                let ix = dec(i);
+                let r = call(&mut ev, None, || match op.as_str() {
+                    "get" => b.get(ix).is_some(),
+                    "nth_front" => b.nth_front(ix).is_some(),
+                    "nth_back" => b.nth_back(ix).is_some(),
+                    "get_mut" => b.get_mut(ix).is_some(),
+                    "nth_front_mut" => b.nth_front_mut(ix).is_some(),
+                    "nth_back_mut" => b.nth_back_mut(ix).is_some(),
+                    "index" => {
+                        let _ = &b[ix];
+                        true
+                    }
+                    _ => {
+                        let _ = &mut b[ix];
+                        true
+                    }
+                });
+                if let Some(r) = r {
+                    ev.ret = if r { Ret { k: "some", ..Default::default() } } else { Ret::none() };
+                }
+            }
+            "front" | "back" | "front_mut" | "back_mut" if !viewing => {
+                let r = call(&mut ev, None, || match op.as_str() {
+                    "front" => b.front().is_some(),
+                    "back" => b.back().is_some(),
+                    "front_mut" => b.front_mut().is_some(),
+                    _ => b.back_mut().is_some(),
+                });
+                if let Some(r) = r {
+                    ev.ret = if r { Ret { k: "some", ..Default::default() } } else { Ret::none() };
+                }
+            }
+            "as_slices" | "as_mut_slices" if !viewing => {
+                let r = call(&mut ev, None, || {
+                    if op == "as_slices" {
+                        let (a, c) = b.as_slices();
+                        (a.len(), c.len())
+                    } else {
+                        let (a, c) = b.as_mut_slices();
+                        (a.len(), c.len())
+                    }
+                });
+                if let Some((a, c)) = r {
+                    ev.ret = Ret { k: "slices", n: enc(a + c), slots: vec![enc(a), enc(c)], ..Default::default() };
+                }
+            }
+            "drain" | "range" | "iter" if !viewing => {
+                let bs = gbound(st, "bs");
+                let be = gbound(st, "be");
+                ev.bs = bs;
+                ev.be = be;
+                ev.v = 0;
+                let rb = (to_bound(bs), to_bound(be));
+                let bb: &'static mut Buf<N> = unsafe { &mut *self.buf };
+                let r = call(&mut ev, None, || match op.as_str() {
+                    "drain" => ZView::Dr(bb.drain(rb)),
+                    "range" => ZView::It(bb.range(rb)),
+                    _ => ZView::It(bb.iter()),
+                });
+                if let Some(v) = r {
+                    ev.ret = Ret::num(match &v {
+                        ZView::Dr(d) => d.len() as i64,
+                        ZView::It(d) => d.len() as i64,
+                    });
+                    self.view = Some(v);
+                }
+            }
+            "v_next" | "v_next_back" if viewing => {
+                ev.v = 0;
+                let front = op == "v_next";
+                let mut got: Option<Zst> = None;
+                let r = match self.view.as_mut().unwrap() {
+                    ZView::Dr(d) => call(&mut ev, None, || {
+                        let x = if front { d.next() } else { d.next_back() };
+                        let some = x.is_some();
+                        got = x;
+                        some
+                    }),
+                    ZView::It(d) => call(&mut ev, None, || (if front { d.next() } else { d.next_back() }).is_some()),
+                };
+                if let Some(x) = got {
+                    self.held.push(x);
+                }
+                if let Some(r) = r {
+                    ev.ret = if r { Ret { k: "some", ..Default::default() } } else { Ret::none() };
+                }
+            }
+            "v_len" if viewing => {
+                ev.v = 0;
+                let n = match self.view.as_ref().unwrap() {
+                    ZView::Dr(d) => d.len(),
+                    ZView::It(d) => d.len(),
+                };
+                ev.ret = Ret { k: "n", n: n as i64, ids2: vec![], ..Default::default() };
+            }
+            "v_drop" if viewing => {
+                ev.v = 0;
+                let v = self.view.take().unwrap();
+                if call(&mut ev, None, move || drop(v)).is_some() {
+                    ev.ret = Ret::unit();
+                }
+            }
+            "drop_buf" if !viewing => {
+                let bx = unsafe { Box::from_raw(self.buf) };
+                self.buf = std::ptr::null_mut();
+                if call(&mut ev, None, move || drop(bx)).is_some() {
+                    ev.ret = Ret::unit();
+                }
+            }
+            _ => return,
+        }
+        ev.post = self.obs();
+        self.emit(ev);
+    }
+}
+
+fn run_n<const N: usize>(scn: &str, steps: &[Value]) -> String {
+    tracked::reset_scenario();
+    let mut d = ZDrv::<N> { buf: std::ptr::null_mut(), view: None, held: Vec::with_capacity(64), out: String::new(),
+                            scn: scn.to_string(), dig: 0xcbf29ce484222325 };
+    let mut b = Ev::new("begin", "begin");
+    b.scn = scn.to_string();
+    b.cap = enc(N);
+    b.feat = crate::FEAT;
+    b.ty = "z";
+    b.write(&mut d.out);
+    for st in steps {
+        d.step(st);
+    }
+    if d.view.is_some() {
+        d.step(&serde_json::json!({"op": "v_drop"}));
+    }
+    if !d.buf.is_null() {
+        d.step(&serde_json::json!({"op": "drop_buf"}));
+    }
+    d.step(&serde_json::json!({"op": "caller_drop"}));
+    let mut e = Ev::new("end", "end");
+    e.scn = scn.to_string();
+    e.ty = "z";
+    e.cap = enc(N);
+    e.feat = crate::FEAT;
+    let (c, dd) = zst_counts();
+    e.ret.ids2 = vec![c as i64, dd as i64, 0];
+    e.write(&mut d.out);
+    crate::set_digest(d.dig);
+    d.out
+}
+
+pub fn run(sc: &Value, scn: &str, steps: &[Value]) -> Option<String> {
+    let code = sc.get("ncode").and_then(|v| v.as_str()).unwrap_or("");
+    const P63: usize = 1usize << 63;
+    const P32: usize = 1usize << 32;
+    Some(match code {
+        "max" => run_n::<{ usize::MAX }>(scn, steps),
+        "max-1" => run_n::<{ usize::MAX - 1 }>(scn, steps),
+        "p63+1" => run_n::<{ P63 + 1 }>(scn, steps),
+        "p63" => run_n::<{ P63 }>(scn, steps),
+        "p63-1" => run_n::<{ P63 - 1 }>(scn, steps),
+        "p32+1" => run_n::<{ P32 + 1 }>(scn, steps),
+        "p32" => run_n::<{ P32 }>(scn, steps),
+        "p32-1" => run_n::<{ P32 - 1 }>(scn, steps),
+        "5" => run_n::<5>(scn, steps),
+        "3" => run_n::<3>(scn, steps),
+        "1" => run_n::<1>(scn, steps),
+        "0" => run_n::<0>(scn, steps),
+        _ => return None,
+    })
+}
